@@ -225,7 +225,11 @@ func (r *NodeManagement) processNotifyDetailedDiscoveryData(message *api.Message
 
 		// is this addition?
 		if lastStateChange == model.NetworkManagementStateChangeTypeAdded {
-			entities, err := remoteDevice.AddEntityAndFeatures(false, data)
+			// add (or update) this entity only: the other entries of the message
+			// are handled according to their own state
+			entityData := *data
+			entityData.EntityInformation = []model.NodeManagementDetailedDiscoveryEntityInformationType{entity}
+			entities, err := remoteDevice.AddEntityAndFeatures(false, &entityData)
 			if err != nil {
 				return err
 			}
@@ -261,40 +265,40 @@ func (r *NodeManagement) processNotifyDetailedDiscoveryData(message *api.Message
 
 		// is this removal?
 		if lastStateChange == model.NetworkManagementStateChangeTypeRemoved {
-			for _, ei := range data.EntityInformation {
-				if err := remoteDevice.CheckEntityInformation(false, ei); err != nil {
-					return err
-				}
-
-				entityAddress := ei.Description.EntityAddress.Entity
-				removedEntity := remoteDevice.RemoveEntityByAddress(entityAddress)
-
-				// only continue if the entity existed
-				if removedEntity == nil {
-					continue
-				}
-
-				payload := api.EventPayload{
-					Ski:        remoteDevice.Ski(),
-					EventType:  api.EventTypeEntityChange,
-					ChangeType: api.ElementChangeRemove,
-					Device:     remoteDevice,
-					Entity:     removedEntity,
-					Data:       data,
-				}
-				Events.Publish(payload)
-
-				// remove all subscriptions for this entity
-				subscriptionMgr := r.Device().SubscriptionManager()
-				subscriptionMgr.RemoveSubscriptionsForEntity(removedEntity)
-
-				// remove all bindings for this entity
-				bindingMgr := r.Device().BindingManager()
-				bindingMgr.RemoveBindingsForEntity(removedEntity)
-
-				// remove all feature caches for this entity
-				r.Device().CleanRemoteEntityCaches(removedEntity.Address())
+			// remove this entity only: the other entries of the message
+			// are handled according to their own state
+			if err := remoteDevice.CheckEntityInformation(false, entity); err != nil {
+				return err
 			}
+
+			entityAddress := entity.Description.EntityAddress.Entity
+			removedEntity := remoteDevice.RemoveEntityByAddress(entityAddress)
+
+			// only continue if the entity existed
+			if removedEntity == nil {
+				continue
+			}
+
+			payload := api.EventPayload{
+				Ski:        remoteDevice.Ski(),
+				EventType:  api.EventTypeEntityChange,
+				ChangeType: api.ElementChangeRemove,
+				Device:     remoteDevice,
+				Entity:     removedEntity,
+				Data:       data,
+			}
+			Events.Publish(payload)
+
+			// remove all subscriptions for this entity
+			subscriptionMgr := r.Device().SubscriptionManager()
+			subscriptionMgr.RemoveSubscriptionsForEntity(removedEntity)
+
+			// remove all bindings for this entity
+			bindingMgr := r.Device().BindingManager()
+			bindingMgr.RemoveBindingsForEntity(removedEntity)
+
+			// remove all feature caches for this entity
+			r.Device().CleanRemoteEntityCaches(removedEntity.Address())
 		}
 	}
 
